@@ -22,7 +22,8 @@
    Cache keys are structured: base key (fqdn+qtype string, numbered) and scope ("" = 0, else numbered);
    key_id is the injective numbering of the key STRING base[|scope] used as tracker owner.
    Oracles, supplied as data of each operation: the clock (now), the domain matcher (rules : fqdn ->
-   bitmap), the LRU victim order (the heap selection; any list), NeedsBpfUpdate for a lookup re-sync. *)
+   bitmap), the LRU victim order (the heap selection; any list), NeedsBpfUpdate for a lookup re-sync,
+   and which re-sync tasks of a reload found room in the bounded task queue. *)
 From Coq Require Import List NArith Bool.
 From Dae Require Import C10_Spec C10_Model C10_Cache.
 Import ListNotations.
@@ -92,7 +93,7 @@ Inductive ctl_op :=
 | OEvictIfSame (k : ckey) (id : N)                                       (* evictDnsRespCacheIfSame *)
 | OLookup (k : ckey) (now : N) (resync : bool)                           (* LookupDnsRespCache *)
 | OJanitor (now : N) (victims : list ckey)                               (* evictExpiredDnsCache *)
-| OReload (rules' : N -> N).                                             (* reload hand-over *)
+| OReload (rules' : N -> N) (sent : ckey -> bool).                       (* reload hand-over *)
 
 (* working state of one operation: the cache and the tracker calls issued so far *)
 Definition work := (cache * list cache_op)%type.
@@ -176,16 +177,24 @@ Definition ctl_janitor (cfg : config) (c : cache) (now : N) (victims : list ckey
 (* reload: CloneCacheForReload (same key, same RouteOwnerKey/answers/deadline/lastAccess, new pointer),
    then, in the NEW generation (empty cache, fresh tracker, cleared kernel map), RestoreReloadCache:
    DomainBitmap = matchDomainBitmap(GetFqdn()), Store, triggerBpfUpdateIfNeeded (lastRouteSyncNano is 0
-   in a clone, so every entry is queued) and the worker's cacheAccessCallback(entry). *)
+   in a clone, so NeedsBpfUpdate claims every entry) and, when sendBpfUpdateTask delivered the task,
+   the worker's cacheAccessCallback(entry).  The task queue holds bpfUpdateQueueSize = 1024 tasks and
+   the send does not block: `sent k = false` is a send that found the queue full (the entry is then
+   re-synced only by a later lookup).  Which sends fail depends on the schedule of the worker: oracle. *)
 Definition clone_for_reload (rules' : N -> N) (tick : N) (e : centry) : centry :=
   {| ce_e := {| e_bitmap := rules' (ce_fqdn e); e_answers := e_answers (ce_e e) |};
      ce_owner := ce_owner e; ce_fqdn := ce_fqdn e; ce_deadline := ce_deadline e;
      ce_last := ce_last e; ce_id := tick |}.
 
-Definition ctl_reload (rules' : N -> N) (tick : N) (c : cache) : work :=
+Definition ctl_reload (rules' : N -> N) (sent : ckey -> bool) (tick : N) (c : cache) : work :=
   fold_left (fun w ke => let v := clone_for_reload rules' tick (snd ke) in
-                         (c_store (fst w) (fst ke) v, snd w ++ access_callback v))
+                         (c_store (fst w) (fst ke) v,
+                          snd w ++ (if sent (fst ke) then access_callback v else [])))
             c ([], []).
+
+(* every re-sync task of a reload was delivered to the worker *)
+Definition resync_delivered (o : ctl_op) : Prop :=
+  match o with OReload _ sent => forall k, sent k = true | _ => True end.
 
 (* ---- controller state ---- *)
 Record ctl := {
@@ -208,7 +217,7 @@ Definition ctl_effect (cfg : config) (st : ctl) (o : ctl_op) : effect :=
   | OEvictIfSame k id => same (evict_if_same (c_cache st, []) k id)
   | OLookup k now resync => same (ctl_lookup (c_cache st) k now resync)
   | OJanitor now victims => same (ctl_janitor cfg (c_cache st) now victims)
-  | OReload rules' => {| ef_work := ctl_reload rules' (c_tick st) (c_cache st);
+  | OReload rules' sent => {| ef_work := ctl_reload rules' sent (c_tick st) (c_cache st);
                          ef_new_generation := true; ef_rules := rules' |}
   end.
 
